@@ -77,6 +77,11 @@ CHECKS = {
    "Success or failure of an individual edit is not judged, only the reachable state. URIs are limited to the schemes the parser preserves.",
    "property-based testing (rapid): round trip + stateful histories with an invariant checked after every step",
    "DESIGN.md 3/C07"),
+ "C04": ("exploration",
+   "Generated-input search: rapid coordinate-sorted record sets (positions and lengths on tile and bin-level edges up to the scheme limit, several references, placed-unmapped and unplaced records) are added to BAI, CSI (minShift 4..16, depth 1..6) and tabix indexes with synthetic monotone chunk layouts, and up to 48 boundary-biased queries per case are compared with a brute-force overlap filter (every overlapping record lies inside a returned chunk; error or empty answer implies no overlap; Add never fails or panics) as built, after write/read and after MergeChunks; a second sub-check writes a real BAM, indexes it with the reader's LastChunk values and iterates the returned chunks with bam.Iterator.",
+   "Completeness only (no minimality). Record sets and queries are sampled, biased to the boundaries the bin/tile arithmetic depends on.",
+   "property-based testing (rapid): brute-force reference oracle over generated record sets and queries",
+   "DESIGN.md 3/C04"),
 }
 
 NOT_YET = {}
